@@ -36,7 +36,7 @@ def coordinator_sessions(ctx):
     correspondence on directed and random sessions - and plays every session a second time with all peer addresses renamed
     (one-to-one, order reversed): the real coordinator must answer every connection exactly as before."""
     from props import coordcommon as CC
-    n = 120 if ctx.tier == "thorough" else 52
+    n = 120 if ctx.tier == "thorough" else 54
     CC.run_sessions(ctx, "C20", n, lambda rng: dict(n_events=rng.choice([30, 60]), burst=0.3, fault=0.1, bad=0.1, resets=0.2),
                     lambda rng: dict(required=rng.choice([1, 2, 2, 3]), max_steps=rng.choice([1, 2, 3])), rename=True)
     sub = dict(ctx.coverage)
